@@ -294,6 +294,29 @@ def _filler(c, rng):
     raise AssertionError(c)
 
 
+SPECIAL_STRINGS = ['\ufeff', '\ufeffabc', 'abc\ufeff', '\ufeff\ufeff', '\ufffe', '\x00', '\x00abc', 'a\x00', '\r\n', '\u2028\u2029',
+                   '\U0010ffff', '\ud7ff\ue000', '\x7f\x80\xff', 'e\u0301', '\u202e', ' ', '\t', '\\', '"', "'"]
+
+
+def work_special(arg):
+    """strings and byte strings whose first / last characters are special to some codec (BOM, NUL, line separators)"""
+    part = core.Part()
+    m = Mon(part)
+    um = _um()
+    for s_ in SPECIAL_STRINGS:
+        for rep in (1, 40, 300):
+            x = s_ * rep if rep > 1 else s_
+            part.case(('special-str', x[:8], rep), nontrivial=True)
+            m.value(x, 'special-str')
+            m.value([x, {x: x}], 'special-str-nested')
+            raw = x.encode('utf-8')
+            for h in ref.len_headers('str', len(raw)):
+                m.stream(h + raw, ('str', x), 'special-str-header-%02x' % h[0])
+            m.value(raw, 'special-bytes')
+            m.value(um.Ext(3, raw), 'special-ext')
+    return part.dump()
+
+
 def work_first_bytes(arg):
     part = core.Part()
     m = Mon(part)
@@ -347,7 +370,7 @@ def gen_py(rng, depth, Ext, key=False):
         return struct.unpack('>d', struct.pack('>Q', rng.getrandbits(64)))[0]
     if k == 'str':
         n = rng.choice([0, 1, 5, 31, 32, 33, 255, 256, 300])
-        alphabet = rng.choice(['abc', 'aé中', '\U0001f600z', ' \n\x00"\\'])
+        alphabet = rng.choice(['abc', 'aé中', '\U0001f600z', ' \n\x00"\\', '\ufeffa', '\u2028\x85\r'])
         return ''.join(rng.choice(alphabet) for _ in range(rng.randint(0, n)))
     if k == 'bin':
         n = rng.choice([0, 1, 15, 16, 255, 256, 257, 400])
@@ -405,7 +428,7 @@ def work_random(arg):
 
 
 def main(run):
-    tasks = [('vf.props.c14:work_ints', [0]), ('vf.props.c14:work_first_bytes', [0])]
+    tasks = [('vf.props.c14:work_ints', [0]), ('vf.props.c14:work_first_bytes', [0]), ('vf.props.c14:work_special', [0])]
     lens = boundary_lengths(run.tier)
     len_args = [[k, n, run.pick(24, 400)] for k in ('str', 'bin', 'ext', 'arr', 'map') for n in lens]
     nrand = run.pick(3000, 60000)
@@ -426,6 +449,7 @@ def main(run):
         'lengths': 'str/bin/ext/array/map of every length in %s, each with every legal header width' % (lens,),
         'first_bytes': 'all 256 first bytes (0xc1 reserved: skipped), each alone and nested in array/map',
         'cut_points': 'every proper prefix for encodings <= 600 bytes; first/last 40 cuts + ~%d strided cuts for longer ones' % run.pick(24, 400),
+        'special_strings': 'strings/bytes/ext whose first or last characters are special to some codec: %r' % (SPECIAL_STRINGS,),
         'random': '%d random nested values to depth 6, each also re-encoded 3x by the reference encoder with random legal formats' % nrand,
     }
     return run.finish(
